@@ -312,55 +312,67 @@ pub fn run(run: &Run, sizes: &[usize]) -> (u64, u64) {
     (states, transitions)
 }
 
-/// Fill indicator: for each size, m keys in m distinct slots for every m at the permille step boundaries.
+/// Fill indicator, independent of how keys are mapped to slots: pseudo-random 64-bit keys are inserted one by one
+/// (same search, non-exact: the latest key always takes its slot); at checkpoints the number of occupied slots is
+/// MEASURED as the number of inserted keys that are still retrievable, and `occupied` / `occupancy()` are compared
+/// with it. The denominator is the implementation's own slot count; that a table of S MB really has room for
+/// about S MB of entries is checked separately.
 pub fn fill_indicator(run: &Run, sizes: &[usize]) -> (u64, u64) {
     let (mut states, mut tr) = (0u64, 0u64);
     for &size in sizes {
         let entry = std::mem::size_of::<crate::engine::transposition_table::TranspositionTableEntry<SearchTranspositionTableData>>();
-        let n = size * 1024 * 1024 / entry;
+        let n_by_size = size * 1024 * 1024 / entry;
         let r = catch(|| {
+            let n = crate::engine::transposition_table::calculate_number_of_entries::<SearchTranspositionTableData>(size).max(1);
             let mut t = SearchTranspositionTable::new(size);
             let mut bad: Vec<String> = vec![];
+            let total = 2 * n_by_size.max(n).max(4);
+            let keys: Vec<u64> = (0..total as u64).map(|i| crate::util::mix(i ^ 0xC19)).collect();
+            let mut checkpoints: Vec<usize> = vec![1, 2, 3, 10, n / 1000, n / 1000 + 1, n / 500, n / 100, n / 20, n / 10, n / 4, n / 2, n - 1, n, n + 1, 3 * n / 2, total];
+            for k in 1..=20 {
+                checkpoints.push(k * total / 20);
+            }
+            checkpoints.retain(|c| *c >= 1 && *c <= total);
+            checkpoints.sort();
+            checkpoints.dedup();
             let mut checks = 0u64;
-            let limit = n.max(1);
-            let step = (n / 1000).max(1);
-            let mut retrievable = 0usize;
-            for m in 1..=limit {
-                t.insert(&ZobristHash((m - 1) as u64), data(0, 1, 1, 0));
-                retrievable += 1;
-                let boundary = m <= 2 || m % step == 0 || m % step == step - 1 || m + 1 >= limit || m == limit / 2;
-                if boundary {
+            let mut next = 0usize;
+            for m in 1..=total {
+                t.insert(&ZobristHash(keys[m - 1]), data(0, 1, 1, 0));
+                if next < checkpoints.len() && checkpoints[next] == m {
+                    next += 1;
                     checks += 1;
-                    if t.occupied != retrievable {
-                        bad.push(format!("size {size} MB after {m} inserts into distinct slots: occupied = {}", t.occupied));
+                    let occupied_slots = keys[..m].iter().filter(|k| t.get(&ZobristHash(**k)).is_some()).count();
+                    if t.occupied != occupied_slots {
+                        bad.push(format!("size {size} MB after {m} inserts: occupied = {}, {} of the inserted keys are retrievable (= occupied slots)", t.occupied, occupied_slots));
                     }
-                    if n > 0 {
-                        let want = 1000 * m / n;
-                        let got = t.occupancy();
-                        if (got as i64 - want as i64).abs() > 1 {
-                            bad.push(format!("size {size} MB, {m} of {n} slots occupied: fill indicator {got}, fraction is {want} permille"));
-                        }
+                    let want = 1000 * occupied_slots / n;
+                    let got = t.occupancy();
+                    if (got as i64 - want as i64).abs() > 1 {
+                        bad.push(format!("size {size} MB, {occupied_slots} of {n} slots occupied: fill indicator {got}, fraction is {want} permille"));
+                    }
+                    if m == total && size >= 1 && occupied_slots * 10 < n_by_size * 4 {
+                        bad.push(format!("size {size} MB: after {m} inserts of distinct random keys only {occupied_slots} entries are held; {entry} bytes per entry would allow {n_by_size}"));
+                    }
+                    if bad.len() > 3 {
+                        break;
                     }
                 }
-                if bad.len() > 3 {
-                    break;
-                }
             }
-            // second pass: same keys again and colliding keys: nothing changes
-            let occ_before = (t.occupied, t.occupancy());
-            for m in 0..limit.min(5000) {
-                t.insert(&ZobristHash(m as u64), data(1, 2, 0, 0));
-                t.insert(&ZobristHash((m + limit * 3) as u64), data(2, 1, 1, 1));
+            // nothing but replacement from here: re-inserting held keys (deeper, exact) must not change the statistics
+            let before = (t.occupied, t.occupancy());
+            let held: Vec<u64> = keys.iter().copied().filter(|k| t.get(&ZobristHash(*k)).is_some()).take(5000).collect();
+            for k in &held {
+                t.insert(&ZobristHash(*k), data(1, 2, 0, 0));
             }
-            if (t.occupied, t.occupancy()) != occ_before && n > 0 {
-                bad.push(format!("size {size} MB: re-inserting and colliding inserts changed the fill statistics from {occ_before:?} to {:?}", (t.occupied, t.occupancy())));
+            if (t.occupied, t.occupancy()) != before {
+                bad.push(format!("size {size} MB: re-inserting held keys changed the fill statistics from {before:?} to {:?}", (t.occupied, t.occupancy())));
             }
-            // reset empties
             t.reset();
-            if t.occupied != 0 || t.occupancy() != 0 || t.get(&ZobristHash(0)).is_some() {
+            if t.occupied != 0 || t.occupancy() != 0 || keys.iter().take(1000).any(|k| t.get(&ZobristHash(*k)).is_some()) {
                 bad.push(format!("size {size} MB: reset leaves occupied={} occupancy={}", t.occupied, t.occupancy()));
             }
-            (bad, checks, limit as u64)
+            (bad, checks, total as u64)
         });
         match r {
             Err(e) => run.violation("tt-panic", format!("tt-panic|fill|size {size}"), J::obj(vec![("kind", J::s("tt-fill")), ("size_mb", J::i(size as i64))]), format!("fill-indicator pass on a {size} MB table panicked: {e}")),
@@ -373,7 +385,7 @@ pub fn fill_indicator(run: &Run, sizes: &[usize]) -> (u64, u64) {
             }
         }
     }
-    run.family("TT-FILL", &format!("sizes {sizes:?} MB: m distinct slots filled for every m up to all slots, statistics compared at every permille step boundary; second pass with repeated and colliding keys; reset"), states, tr, true, "");
+    run.family("TT-FILL", &format!("sizes {sizes:?} MB: 2 x (size / entry size) pseudo-random keys inserted one by one; at ~35 checkpoints (1, 2, 3, 10, the permille steps around N/1000, N/100 .. N, 3N/2, 2N) the number of occupied slots is measured through probes and compared with `occupied` and the fill indicator; capacity; re-insertion; reset"), states, tr, true, "independent of the key-to-slot mapping");
     (states, tr)
 }
 
